@@ -323,7 +323,9 @@ def stream_harness(name):
 def configs(tier):
     c = [("roundtrip(lsb_first=False)",), ("roundtrip(lsb_first=True)",)]
     if tier == "quick":
-        c += [("multiword(nwords=2,lsb_first=False)/class24", 0, 1), ("multiword(nwords=4,lsb_first=True)/class6", 0, 1)]
+        c += [("multiword(nwords=2,lsb_first=False)/class24", 0, 1), ("multiword(nwords=4,lsb_first=True)/class6", 0, 1),
+              ("multiword(nwords=2,lsb_first=True)/class24", 0, 1), ("multiword(nwords=4,lsb_first=False)/class6", 0, 1),
+              ("multiword(nwords=3,lsb_first=False)/class8", 0, 1)]
     else:
         c += [(f"multiword(nwords=2,lsb_first=False)/all268/part{p}of8", p, 8) for p in range(8)]
         c += [(f"multiword(nwords=2,lsb_first=True)/class24", 0, 1), ("multiword(nwords=4,lsb_first=True)/class6", 0, 1),
